@@ -9,6 +9,9 @@ use tower_lsp::lsp_types::{CodeActionOrCommand, Command, Diagnostic, Range, Url}
 pub struct DocumentState {
     pub document: Document,
     pub ident_dict: Lrc<MutableDictionary>,
+    /// The file dictionary the linter was last built from, without the document's identifiers.
+    pub base_dict: Lrc<MergedDictionary>,
+    /// `base_dict`, plus the document's identifiers where the language has any.
     pub dict: Lrc<MergedDictionary>,
     pub linter: LintGroup,
     pub language_id: Option<String>,
@@ -88,6 +91,7 @@ impl Default for DocumentState {
         Self {
             document: Default::default(),
             ident_dict: Default::default(),
+            base_dict: Default::default(),
             dict: Default::default(),
             linter: Default::default(),
             language_id: Default::default(),
